@@ -251,6 +251,42 @@ Utf8LawsHold ==
   /\ \A bs \in {<<195>>, <<169>>, <<195, 40>>, <<226, 130>>, <<255>>, <<192, 128>>} : Replacement \in {Utf8DecodeFrom(bs, 1)[i] : i \in 1..Len(Utf8DecodeFrom(bs, 1))}
   /\ ~WellFormedFor(TRUE, <<195>>) /\ ~WellFormedFor(FALSE, <<155>>) /\ WellFormedFor(FALSE, <<195, 169>>)
 ASSUME Utf8Laws == Utf8LawsHold
+\* malformed UTF-8, lenient reading: well-formed input reads as the reference reads it; a sequence that is cut short shows nothing,
+\* whatever its length; a continuation byte that continues nothing is the 8-bit character it is; and a character is never assembled
+\* from the two halves of a sequence that are decoded apart (the commands in between are decoded on their own)
+RECURSIVE Prefixes(_)
+Prefixes(bs) == IF Len(bs) <= 1 THEN {} ELSE {SubSeq(bs, 1, Len(bs) - 1)} \cup Prefixes(SubSeq(bs, 1, Len(bs) - 1))
+LenientLawsHold ==
+  /\ \A a \in Utf8Sample, b \in Utf8Sample : LenientFrom(Utf8Encode(a) \o Utf8Encode(b), 1) = <<a, b>>
+  /\ \A cp \in Utf8Sample : \A pre \in Prefixes(Utf8Encode(cp)) :
+        /\ LenientFrom(pre, 1) = <<>>
+        /\ LenientFrom(pre \o <<120>>, 1) = <<120>>                        \* cut short inside one run
+        /\ LET rest == SubSeq(Utf8Encode(cp), Len(pre) + 1, Len(Utf8Encode(cp)))
+           IN cp < 192 \/ cp \notin {(LenientFrom(pre, 1) \o <<120, 121>> \o LenientFrom(rest, 1))[i] : i \in 1..(2 + Len(LenientFrom(rest, 1)))}
+  /\ \A b \in 128..191 : LenientFrom(<<b>>, 1) = <<b>>
+  /\ LenientFrom(<<192, 128>>, 1) = <<>> /\ LenientFrom(<<226, 130, 195, 169>>, 1) = <<233>>
+  /\ LenientBytes(FALSE, <<226, 130>>) = <<226, 130>>
+ASSUME LenientLaws == LenientLawsHold
+\* lines across a resize: kept in order (cut or padded to the new width, blank rows below); a block of restored lines that is
+\* put in upside down, a dropped line or a changed cell is told apart
+ResizeLawsHold ==
+  LET c(k) == <<k, -1, -1, 0>>   bl == <<32, -1, -1, 0>>
+      A == <<c(65), c(97)>>  B == <<c(66), c(98)>>  C == <<c(67), c(99)>>  D == <<c(68), c(100)>>
+  IN /\ ResizeKeepsLines(<<A, B>>, <<C, D>>, <<>>, <<A, B, C, D>>)                    \* two rows taller
+     /\ ~ResizeKeepsLines(<<A, B>>, <<C, D>>, <<>>, <<B, A, C, D>>)                   \* ... restored upside down
+     /\ ResizeKeepsLines(<<A>>, <<B, C>>, <<>>, <<A, B, C, <<bl, bl>>>>)                \* taller than there are lines
+     /\ ~ResizeKeepsLines(<<A>>, <<B, C>>, <<>>, <<<<bl, bl>>, A, B, C>>)
+     /\ ResizeKeepsLines(<<A>>, <<B, C>>, <<A, B>>, <<C>>)                              \* shorter
+     /\ ~ResizeKeepsLines(<<A>>, <<B, C>>, <<A>>, <<C>>)                                \* a line lost
+     /\ ResizeKeepsLines(<<A>>, <<B, C>>, <<A>>, <<<<c(66)>>, <<c(67)>>>>)              \* narrower
+     /\ ResizeKeepsLines(<<A>>, <<B, C>>, <<>>, <<A \o <<bl>>, B \o <<bl>>, C \o <<bl>>>>)   \* wider and taller
+     /\ ~ResizeKeepsLines(<<A>>, <<B, C>>, <<>>, <<A \o <<c(120)>>, B \o <<bl>>, C \o <<bl>>>>)
+ASSUME ResizeLaws == ResizeLawsHold
+\* colours by meaning: bold folds the eight basic colours into the bright ones, never one palette index into another
+ColourLawsHold ==
+  /\ FgEq(1, TRUE, 9, TRUE) /\ FgEq(1, TRUE, 1001, TRUE) /\ FgEq(1012, TRUE, 1012, TRUE) /\ FgEq(1012, FALSE, 12, FALSE)
+  /\ ~FgEq(1012, TRUE, 1004, TRUE) /\ ~FgEq(1009, TRUE, 1001, TRUE) /\ ~FgEq(16777216 + 12, TRUE, 16777216 + 4, TRUE)
+ASSUME ColourLaws == ColourLawsHold
 
 (* ---- refuted (TLC must find a counterexample) ---- *)
 ExclusiveEraseIsAccepted == Matches(ED1Exclusive(t), ObsOf(ED(t, 1)), FALSE)
